@@ -10,6 +10,7 @@ import (
 
 	commonv1 "github.com/apache/skywalking-banyandb/api/proto/banyandb/common/v1"
 	databasev1 "github.com/apache/skywalking-banyandb/api/proto/banyandb/database/v1"
+	measurev1 "github.com/apache/skywalking-banyandb/api/proto/banyandb/measure/v1"
 	modelv1 "github.com/apache/skywalking-banyandb/api/proto/banyandb/model/v1"
 	"github.com/apache/skywalking-banyandb/api/data"
 	"github.com/apache/skywalking-banyandb/banyand/internal/verif/simmeta"
@@ -27,6 +28,7 @@ func TestSim(t *testing.T) {
 	simcore.Main(t, "C16", []simcore.Scenario{
 		{Name: "coordinators", Weight: 4, Run: runCoordinators},
 		{Name: "shardid", Weight: 1, Run: runShardID},
+		{Name: "write-routing", Weight: 1, Run: runWriteRouting},
 	})
 }
 
@@ -371,4 +373,121 @@ func runShardID(e *simcore.Env, tp *simcore.Tape) {
 	}
 	e.Nontrivial()
 	e.SetSample(map[string]any{"entity_tags": names, "shard_num": shardNum, "distinct_entities": len(seen)})
+}
+
+
+// runWriteRouting: the liaison's routing step of a measure write (buildSpecLocators + navigate, the real code) must
+// send one series to ONE shard however the client lays the request out: no DataPointSpec (tag families in schema
+// order), a spec in schema order, a spec with families and tags permuted. Measures with and without a sharding key.
+func runWriteRouting(e *simcore.Env, tp *simcore.Tape) {
+	ctx := context.Background()
+	repo := simmeta.New()
+	shardNum := uint32(tp.Range(1, 9))
+	_, _ = repo.CreateGroup(ctx, &commonv1.Group{
+		Metadata: &commonv1.Metadata{Name: "g"}, Catalog: commonv1.Catalog_CATALOG_MEASURE,
+		ResourceOpts: &commonv1.ResourceOpts{ShardNum: shardNum,
+			SegmentInterval: &commonv1.IntervalRule{Unit: commonv1.IntervalRule_UNIT_DAY, Num: 1}, Ttl: &commonv1.IntervalRule{Unit: commonv1.IntervalRule_UNIT_DAY, Num: 7}},
+	})
+	type tg struct {
+		name, fam string
+		isInt     bool
+	}
+	tags := []tg{{"t0", "a", false}, {"t1", "a", true}, {"t2", "b", false}, {"t3", "b", true}}
+	fams := []*databasev1.TagFamilySpec{
+		{Name: "a", Tags: []*databasev1.TagSpec{{Name: "t0", Type: databasev1.TagType_TAG_TYPE_STRING}, {Name: "t1", Type: databasev1.TagType_TAG_TYPE_INT}}},
+		{Name: "b", Tags: []*databasev1.TagSpec{{Name: "t2", Type: databasev1.TagType_TAG_TYPE_STRING}, {Name: "t3", Type: databasev1.TagType_TAG_TYPE_INT}}},
+	}
+	subset := func() []string { // a non-empty ordered selection of tag names
+		var out []string
+		for _, t := range tags {
+			if tp.Bool(1, 2) {
+				out = append(out, t.name)
+			}
+		}
+		if len(out) == 0 {
+			out = []string{tags[tp.Choose(len(tags))].name}
+		}
+		if len(out) > 1 && tp.Bool(1, 2) {
+			out[0], out[len(out)-1] = out[len(out)-1], out[0]
+		}
+		return out
+	}
+	ms := &databasev1.Measure{
+		Metadata: &commonv1.Metadata{Name: "m", Group: "g"}, TagFamilies: fams, Entity: &databasev1.Entity{TagNames: subset()},
+		Fields: []*databasev1.FieldSpec{{Name: "f", FieldType: databasev1.FieldType_FIELD_TYPE_INT, EncodingMethod: databasev1.EncodingMethod_ENCODING_METHOD_GORILLA, CompressionMethod: databasev1.CompressionMethod_COMPRESSION_METHOD_ZSTD}},
+	}
+	if tp.Bool(2, 3) {
+		ms.ShardingKey = &databasev1.ShardingKey{TagNames: subset()}
+		e.Probe("reach.measure_with_sharding_key")
+	}
+	if _, err := repo.CreateMeasure(ctx, ms); err != nil {
+		e.Fail("harness", "schema-rejected", "CreateMeasure: %v", err)
+		return
+	}
+	nr := lgrpc.NewLocalNodeRegistry()
+	fe, err := lgrpc.VerifNewFrontend(repo, queue.Local(), queue.Local(), lgrpc.NodeRegistries{
+		MeasureLiaisonNodeRegistry: nr, StreamLiaisonNodeRegistry: nr, PropertyNodeRegistry: nr, TraceLiaisonNodeRegistry: nr,
+	})
+	if err != nil {
+		e.Fail("harness", "frontend", "front end: %v", err)
+		return
+	}
+	e.Event("shards=%d entity=%v sharding_key=%v", shardNum, ms.Entity.TagNames, ms.GetShardingKey().GetTagNames())
+	for i := 0; i < 30 && !e.Failed(); i++ {
+		e.Step()
+		val := map[string]*modelv1.TagValue{}
+		for _, t := range tags {
+			if t.isInt {
+				val[t.name] = &modelv1.TagValue{Value: &modelv1.TagValue_Int{Int: &modelv1.Int{Value: int64(tp.Range(0, 6)) - 3}}}
+			} else {
+				val[t.name] = &modelv1.TagValue{Value: &modelv1.TagValue_Str{Str: &modelv1.Str{Value: simcore.Pick(tp, valuePool)}}}
+			}
+		}
+		build := func(famOrder []int, tagOrder [][]int, withSpec bool) *measurev1.WriteRequest {
+			req := &measurev1.WriteRequest{Metadata: &commonv1.Metadata{Name: "m", Group: "g"}, DataPoint: &measurev1.DataPointValue{}}
+			spec := &measurev1.DataPointSpec{FieldNames: []string{"f"}}
+			for _, fi := range famOrder {
+				f := fams[fi]
+				tf := &modelv1.TagFamilyForWrite{}
+				ts := &measurev1.TagFamilySpec{Name: f.Name}
+				for _, ti := range tagOrder[fi] {
+					tf.Tags = append(tf.Tags, val[f.Tags[ti].Name])
+					ts.TagNames = append(ts.TagNames, f.Tags[ti].Name)
+				}
+				req.DataPoint.TagFamilies = append(req.DataPoint.TagFamilies, tf)
+				spec.TagFamilySpec = append(spec.TagFamilySpec, ts)
+			}
+			if withSpec {
+				req.DataPointSpec = spec
+			}
+			return req
+		}
+		schemaOrder := [][]int{{0, 1}, {0, 1}}
+		famPerm := [][]int{{0, 1}, {1, 0}}[tp.Choose(2)]
+		tagPerm := [][]int{[][]int{{0, 1}, {1, 0}}[tp.Choose(2)], [][]int{{0, 1}, {1, 0}}[tp.Choose(2)]}
+		type lay struct {
+			name string
+			req  *measurev1.WriteRequest
+		}
+		lays := []lay{{"no spec", build([]int{0, 1}, schemaOrder, false)}, {"spec in schema order", build([]int{0, 1}, schemaOrder, true)},
+			{fmt.Sprintf("spec permuted families=%v tags=%v", famPerm, tagPerm), build(famPerm, tagPerm, true)}}
+		var shard0 string
+		for k, l := range lays {
+			ev, sid, rerr := fe.VerifMeasureRoute(l.req)
+			if rerr != nil {
+				e.Fail("write-routing", "route-error", "%s: %v", l.name, rerr)
+				return
+			}
+			sig := fmt.Sprintf("shard=%d entity=%v", sid, ev)
+			if k == 0 {
+				shard0 = sig
+			} else if sig != shard0 {
+				e.Fail("write-routing", "layout-changes-the-route", "values %v: %q routes to %s, %q to %s (entity %v, sharding key %v, %d shards)",
+					val, lays[0].name, shard0, l.name, sig, ms.Entity.TagNames, ms.GetShardingKey().GetTagNames(), shardNum)
+				return
+			}
+		}
+		e.Probe("reach.three_layouts_routed")
+	}
+	e.Nontrivial()
 }
